@@ -324,7 +324,7 @@ def versions():
 
 
 def write_replay(check, seed, idx, scenario, res, tier, property_id=None):
-    rdir = os.path.join(VERIF_ROOT, 'replays', property_id or check.id)
+    rdir = os.path.join(os.environ.get('VERIF_REPLAY_DIR') or os.path.join(VERIF_ROOT, 'replays'), property_id or check.id)
     os.makedirs(rdir, exist_ok=True)
     path = os.path.join(rdir, '%d-%d.json' % (seed, idx))
     doc = {'property': check.id, 'claims': property_id or check.id, 'invariant': res['invariant'], 'signature': res.get('signature'),
@@ -377,7 +377,7 @@ def run_check(cid, tier, seed, out=sys.stdout):
 
 
 def write_evidence(evidence):
-    edir = os.path.join(VERIF_ROOT, 'evidence')
+    edir = os.environ.get('VERIF_EVIDENCE_DIR') or os.path.join(VERIF_ROOT, 'evidence')
     os.makedirs(edir, exist_ok=True)
     with open(os.path.join(edir, '%s.json' % evidence['property_id']), 'w') as handle:
         json.dump(evidence, handle, indent=1, default=_default)
